@@ -4,7 +4,8 @@
    the committed-id look-up of service/txidmanager.go (HasRecent) and the cumulative balance check of
    service/transaction/transaction_v3.go (PreValidate with update = true).
 
-   A transaction is [n, from, to, value, limit, ts]: n makes it unique (the id is a hash over all fields).
+   A transaction is [n, from, to, value, limit, ts]: n makes it unique (the id is a hash over all fields);
+   from = to (a self-transfer) is allowed.
    One action per public call: Add (TransactionPool.Add), Commit (a block with some transactions is
    finalized: their ids reach the locator manager, RemoveList takes them out of the pool), Candidate
    (TransactionPool.Candidate for a block with timestamp bt and at most maxCount transactions; dropped
@@ -67,17 +68,20 @@ KeepFrom(i, drop) == IF i > Len(pool) THEN <<>>
 Keep(drop) == KeepFrom(1, drop)
 
 \* ---------------------------------------------------------------- what a validator checks (transition.validateTxs + TXID logger)
-RECURSIVE ValidFrom(_, _, _, _)
-ValidFrom(l, i, bal, bt) ==
-  IF i > Len(l) THEN TRUE
+\* why the list l is not a valid block for block time bt after the transactions comm were committed ("ok": it is valid).
+\* The sender is debited before the receiver is credited: a self-transfer (from = to) costs limit * price net.
+RECURSIVE WhyFrom(_, _, _, _, _)
+WhyFrom(l, i, bal, bt, comm) ==
+  IF i > Len(l) THEN "ok"
   ELSE LET tx == l[i] IN
-       /\ InWindow(tx.ts, bt)
-       /\ tx \notin committed
-       /\ \A j \in 1..(i-1) : l[j] # tx
-       /\ tx.limit >= MinStep
-       /\ bal[tx.from] >= Cost(tx)
-       /\ ValidFrom(l, i + 1, [[bal EXCEPT ![tx.from] = @ - Cost(tx)] EXCEPT ![tx.to] = @ + tx.value], bt)
-BlockValid(l, bt) == ValidFrom(l, 1, Bal0, bt)
+       IF tx.ts <= bt - Th THEN "expired"
+       ELSE IF tx.ts > bt + Th THEN "future"
+       ELSE IF tx \in comm \/ \E j \in 1..(i-1) : l[j] = tx THEN "duplicate"
+       ELSE IF tx.limit < MinStep THEN "not-enough-step"
+       ELSE IF bal[tx.from] < Cost(tx) THEN "out-of-balance"
+       ELSE WhyFrom(l, i + 1, [[bal EXCEPT ![tx.from] = @ - Cost(tx)] EXCEPT ![tx.to] = @ + tx.value], bt, comm)
+WhyInvalid(l, bt, comm) == WhyFrom(l, 1, Bal0, bt, comm)
+BlockValid(l, bt) == WhyInvalid(l, bt, committed) = "ok"
 
 \* ---------------------------------------------------------------- history
 Can == MaxOps = 0 \/ Len(hist) < MaxOps
@@ -92,7 +96,7 @@ Init == pool = <<>> /\ made = 0 /\ known = {} /\ committed = {} /\ hist = <<>>
 Add(tx, direct) ==
   /\ Can
   /\ \/ tx \in known /\ UNCHANGED <<made, known>>
-     \/ /\ made < MaxN /\ tx.n = made + 1 /\ tx.from # tx.to
+     \/ /\ made < MaxN /\ tx.n = made + 1
         /\ made' = made + 1 /\ known' = known \cup {tx}
   /\ UNCHANGED committed
   /\ LET res == IF Len(pool) >= MaxPool THEN "overflow" ELSE IF tx \in PoolTxs THEN "dup" ELSE "ok" IN
